@@ -18,7 +18,7 @@ VERIF = os.path.dirname(os.path.dirname(os.path.abspath(__file__)))
 EVIDENCE_DIR = os.environ.get("VERIF_EVIDENCE_DIR", os.path.join(VERIF, "evidence"))
 REPLAY_DIR = os.environ.get("VERIF_REPLAY_DIR", os.path.join(VERIF, "replays"))
 KNOWN = os.path.join(VERIF, "known_findings.json")
-CASE_TIMEOUT = float(os.environ.get("VERIF_CASE_TIMEOUT", "60"))
+CASE_TIMEOUT = float(os.environ.get("VERIF_CASE_TIMEOUT", "120"))
 
 
 class CaseTimeout(BaseException):
@@ -41,7 +41,7 @@ def _run_chunk(args):
         if time.time() > deadline:
             out.append({"idx": idx, "skipped": True})
             continue
-        signal.setitimer(signal.ITIMER_REAL, CASE_TIMEOUT)
+        signal.setitimer(signal.ITIMER_REAL, spec.get("case_timeout", CASE_TIMEOUT))
         try:
             if spec.get("isolate"):
                 out.append(_isolated(spec, seed, idx, tier))
